@@ -400,6 +400,19 @@ class Program:
             self._impl_self[span] = r
         return r
 
+    def drop_types(self):
+        """names of the repository types that implement Drop (from the impl headers in the MIR dumps)"""
+        r = getattr(self, '_drop_types', None)
+        if r is None:
+            r = set()
+            for e in self.by_simple.get('drop', ()):
+                if e.impl_span is not None and len(e.argnorm) == 1:
+                    tr, sb = self.impl_info(e.impl_span)
+                    if tr == 'Drop' and sb:
+                        r.add(sb.lstrip('&'))
+            self._drop_types = r
+        return r
+
     def find_fn(self, simple, arg_rts, nargs, ret=None, self_base=None, trait=None):
         """candidates in the MIR dumps matching the constraints (memoised)"""
         key = (simple, tuple(arg_rts), nargs, ret, self_base, trait)
@@ -1084,6 +1097,19 @@ class Interp:
                 elif k == 'return':
                     return L[0]
                 elif k == 'drop':
+                    # run a user Drop impl (RAII guards); values of std types have no observable drop in the models.
+                    # MIR drop elaboration already decides whether the value is still owned here.
+                    try:
+                        dv = self.read(L, term[1])
+                    except Exception:
+                        dv = None
+                    if type(dv) in (Struct, Enum) and dv.ty in self.prog.drop_types():
+                        cell = [dv]
+                        cands = self.prog.find_fn('drop', ['&' + dv.ty], 1, None, dv.ty, 'Drop')
+                        if len(cands) == 1:
+                            self.run_func(self.prog.func(cands[0]), [Ref(cell, 0)])
+                        elif cands:
+                            raise Inconclusive('ambiguous Drop impl for %s' % dv.ty)
                     bb = term[2]
                 elif k == 'assert':
                     c = self.operand(L, term[1])
